@@ -67,7 +67,121 @@ func (c *Ctx) skelD(v ssa.Value, e *env, depth int) []Seg {
 			}
 		}
 	}
+	if inner, desc, ok := c.rewriteOf(rv, e); ok {
+		return []Seg{{Hole: desc + "(" + c.key(inner, e) + ")", Val: rv}}
+	}
 	return []Seg{{Hole: c.key(rv, e), Val: rv}}
+}
+
+// rewriteOf recognises a character-for-character rewrite of a string: a chain of
+// strings.ReplaceAll(x, "a", "b") calls or (*strings.Replacer).Replace on a package-level replacer built
+// with constant pairs. When every pattern and replacement is a single byte and no replacement is also a
+// pattern, sequential and simultaneous replacement coincide and the rewrite is described canonically as
+// rewrite[a→b,c→d] — so both spellings compare equal.
+func (c *Ctx) rewriteOf(v ssa.Value, e *env) (inner ssa.Value, desc string, ok bool) {
+	var pairs [][2]string
+	cur := c.resolve(v, e)
+	for {
+		call, isCall := cur.(*ssa.Call)
+		if !isCall {
+			break
+		}
+		name := calleeFullName(call)
+		if name == "strings.ReplaceAll" && len(call.Call.Args) == 3 {
+			a, okA := constStringVal(c.resolve(call.Call.Args[1], e))
+			b, okB := constStringVal(c.resolve(call.Call.Args[2], e))
+			if !okA || !okB {
+				return nil, "", false
+			}
+			pairs = append([][2]string{{a, b}}, pairs...)
+			cur = c.resolve(call.Call.Args[0], e)
+			continue
+		}
+		if name == "(*strings.Replacer).Replace" && len(call.Call.Args) == 2 {
+			rp := c.replacerPairs(call.Call.Args[0])
+			if rp == nil {
+				return nil, "", false
+			}
+			pairs = append(append([][2]string(nil), rp...), pairs...)
+			cur = c.resolve(call.Call.Args[1], e)
+			continue
+		}
+		break
+	}
+	if len(pairs) == 0 {
+		return nil, "", false
+	}
+	from := map[string]bool{}
+	for _, p := range pairs {
+		if len(p[0]) != 1 || len(p[1]) != 1 || from[p[0]] {
+			return nil, "", false
+		}
+		from[p[0]] = true
+	}
+	for _, p := range pairs {
+		if from[p[1]] {
+			return nil, "", false
+		}
+	}
+	var parts []string
+	for _, p := range pairs {
+		parts = append(parts, p[0]+"→"+p[1])
+	}
+	sortStrings(parts)
+	return cur, "rewrite[" + strings.Join(parts, ",") + "]", true
+}
+
+// replacerPairs: v is a load of a package-level *strings.Replacer initialised once in init with
+// strings.NewReplacer(constant pairs…).
+func (c *Ctx) replacerPairs(v ssa.Value) [][2]string {
+	ld, ok := v.(*ssa.UnOp)
+	if !ok {
+		return nil
+	}
+	g, ok := ld.X.(*ssa.Global)
+	if !ok || g.Pkg == nil {
+		return nil
+	}
+	init := g.Pkg.Func("init")
+	var call *ssa.Call
+	n := 0
+	for _, f := range c.Funcs {
+		if f == init {
+			continue
+		}
+		for _, b := range f.Blocks {
+			for _, in := range b.Instrs {
+				if st, ok := in.(*ssa.Store); ok && st.Addr == ssa.Value(g) {
+					n++
+				}
+			}
+		}
+	}
+	for _, b := range init.Blocks {
+		for _, in := range b.Instrs {
+			if st, ok := in.(*ssa.Store); ok && st.Addr == ssa.Value(g) {
+				n++
+				call, _ = st.Val.(*ssa.Call)
+			}
+		}
+	}
+	if n != 1 || call == nil || calleeFullName(call) != "strings.NewReplacer" {
+		return nil
+	}
+	lit, ok := c.sliceLiteral(call.Call.Args[0], nil)
+	if !ok || len(lit)%2 != 0 {
+		return nil
+	}
+	var out [][2]string
+	for i := 0; i < len(lit); i += 2 {
+		a, okA := constStringVal(lit[i])
+		b, okB := constStringVal(lit[i+1])
+		if !okA || !okB {
+			return nil
+		}
+		out = append(out, [2]string{a, b})
+	}
+	return out
 }
 
 func mergeLits(in []Seg) []Seg {
